@@ -44,6 +44,8 @@ KEYS = ["j", "k", "l", "h", "w", "b", "$", "0", "G", "1G", "5G", "H", "M", "L", 
         # (^E first: a ^F typed at a pending "[enter to continue]" prompt selects the alternate (Farsi) keymap for later inserts)
         "o\x05foo\x1b", "O\x05bar\x1b", "i\x05x\x1b", "A\x05end\x1b", "o\x05two\nlines\x1b", "cw\x05new\x1b", "S\x1b", "3O\x05top\x1b",
         ":3d\n", ":$d\n", ":1,3d\n", ":s/o/0/g\n", ":g/foo/d\n", ":2\n", ":$\n", ":1\n", ":se hll\n", ":se nohl\n", ":%p\n", ":ec hi\n", ":u\n",
+        # ex lines whose last command fails after an earlier one changed text or printed lines (the status of a line is that of its last command)
+        ":1d|99999p\n", ":1p|2p|99999p\n", ":s/o/0/|99999p\n", ":$d|nosuchcmd\n", ":2,3m0|99999p\n", ":g/o/s//0/|99999p\n",
         "/foo\n", "?bar\n", "n", "N", "\x07", "ma", "'a", "``",
         # scrolling that pushes the cursor off its line (cursor on the first/last row, at a column beyond tabs or wide characters)
         # puts of character-wise text that spans lines, with counts
